@@ -449,7 +449,16 @@ def _hashable_live(v: Any) -> bool:
 
 
 def st_construction(ctx: Ctx):
-    ann = CF.st_annotation(3, allow_forward=True, allow_rejected=False).filter(
+    sc = lambda n: {"k": "scalar", "n": n}  # noqa: E731
+    # unions whose members are related by subclassing (bool is an int, an int is acceptable for float)
+    related = st.sampled_from([
+        {"k": "union", "of": [sc("int"), sc("bool")], "pipe": True},
+        {"k": "opt", "of": {"k": "union", "of": [sc("bool"), sc("int")], "pipe": False}},
+        {"k": "union", "of": [sc("bool"), sc("str")], "pipe": True},
+        {"k": "tuple_var", "of": {"k": "union", "of": [sc("int"), sc("bool")], "pipe": True}},
+        {"k": "union", "of": [sc("float"), sc("int"), {"k": "none"}], "pipe": True},
+    ])
+    ann = st.one_of(CF.st_annotation(3, allow_forward=True, allow_rejected=False), related).filter(
         lambda a: CF.classify_ref(a) in ("child", "property"))
     fld = st.fixed_dictionaries({"ann": ann, "mode": st.sampled_from([1, 2, 3, 0, 1, 2]), "pick": st.integers(0, 200),
                                  "noninit": st.sampled_from([False, False, False, True])})
